@@ -598,8 +598,52 @@ func c09AloneLeg(c *Ctx) {
 		p := gen.GenerateSeed(seed, o)
 		pr := progFromGen(p)
 		cs := c09Case{Leg: "alone-vs-together", Seed: seed, Schema: pr.Schema, Ops: pr.Ops, Cfg: pr.Cfg}
+		if i%2 == 1 {
+			// "together" in another source layout (the operations share Go literals, lines, files in new ways); "alone"
+			// stays one .graphql file per operation
+			lay := []layoutKind{layGoSameLine, layGoOneLit, layGoSameLine, layGoRaw, layGoSameLine, layPerDef, layGoNested, layCR}[(i/2)%8]
+			defs := p.Defs
+			if lay == layGoSameLine {
+				// pairs of literals on one Go line, the LONGER definition first: a generator that reads the second literal's
+				// comments from the first literal's text then finds other lines there instead of running off its end
+				defs = append([]gen.Def{}, p.Defs...)
+				sort.SliceStable(defs, func(a, b int) bool {
+					return strings.Count(defs[a].Comment+defs[a].Text, "\n") > strings.Count(defs[b].Comment+defs[b].Text, "\n")
+				})
+			}
+			if files, _ := layout(defs, lay, c.Rng("c09/lay", i)); len(files) > 0 {
+				cs.Ops = files
+				c.Res.Count("alone:together-layout:" + string(lay))
+			}
+		}
 		c09Alone(c, cs, p)
 	}
+}
+
+// c09OpWithFragments: the text of one operation and of the fragments it reaches, in the original order
+func c09OpWithFragments(p *gen.Program, d gen.Def) string {
+	byName := map[string]gen.Def{}
+	for _, x := range p.Defs {
+		byName[x.Name] = x
+	}
+	need := map[string]bool{d.Name: true}
+	var visit func(x gen.Def)
+	visit = func(x gen.Def) {
+		for _, u := range x.Uses {
+			if !need[u] {
+				need[u] = true
+				visit(byName[u])
+			}
+		}
+	}
+	visit(d)
+	var sub []gen.Def
+	for _, x := range p.Defs {
+		if need[x.Name] {
+			sub = append(sub, x)
+		}
+	}
+	return (&gen.Program{Defs: sub}).OperationsText()
 }
 
 func c09Alone(c *Ctx, cs c09Case, p *gen.Program) {
@@ -611,6 +655,29 @@ func c09Alone(c *Ctx, cs c09Case, p *gen.Program) {
 	c.Res.Eval()
 	if all.Err != nil || all.Panic != nil || all.TimedOut {
 		c.Res.Count("alone:skipped-together-not-generated")
+		// the operations are valid by construction: together they may only be refused for a clash of generated names
+		// (which the property wants reported).  Anything else — while every operation generates alone — means that
+		// combining independently valid operations broke one of them.
+		msg := fmt.Sprint(all.Err, all.Panic)
+		if all.TimedOut || !strings.Contains(strings.ToLower(msg), "conflict") {
+			okAlone := 0
+			for _, d := range p.Defs {
+				if d.Kind == "fragment" {
+					continue
+				}
+				text := c09OpWithFragments(p, d)
+				one := runGenerate(c.Work, &Program{Schema: cs.Schema, Ops: map[string]string{"ops.graphql": text}, Cfg: cs.Cfg}, false)
+				if one.Err != nil || one.Panic != nil || one.TimedOut {
+					okAlone = -1
+					break
+				}
+				okAlone++
+			}
+			if okAlone > 0 {
+				c.Res.Add(proto.Finding{Kind: "violation", Class: "operations-generate-alone-but-not-together",
+					What: fmt.Sprintf("each of the %d operations is generated alone; together (same definitions, laid out as in the case) generation fails without reporting a name clash: %s", okAlone, firstLine(msg)), Case: cs})
+			}
+		}
 		return
 	}
 	c09Events(c, cs, all)
